@@ -8,6 +8,7 @@ import (
 	"github.com/lugu/qiloop/bus"
 	"github.com/lugu/qiloop/bus/util"
 	"github.com/lugu/qiloop/type/object"
+	"github.com/lugu/qiloop/vhook"
 )
 
 // serviceDirectory implements ServiceDirectoryImplementor
@@ -103,6 +104,7 @@ func (s *serviceDirectory) RegisterService(newInfo ServiceInfo) (uint32, error) 
 			return 0, fmt.Errorf("Service name already ready: %s", info.Name)
 		}
 	}
+	vhook.Gate("directory.register.checked", s, newInfo.Name)
 	s.lastID++
 	newInfo.ServiceId = s.lastID
 	s.staging[s.lastID] = newInfo
@@ -113,6 +115,7 @@ func (s *serviceDirectory) UnregisterService(id uint32) error {
 	i, ok := s.services[id]
 	if ok {
 		delete(s.services, id)
+		vhook.Gate("directory.unregister.deleted", s, id)
 		signal := s.signal
 		if signal != nil {
 			signal.SignalServiceRemoved(id, i.Name)
@@ -132,6 +135,7 @@ func (s *serviceDirectory) ServiceReady(id uint32) error {
 	if ok {
 		delete(s.staging, id)
 		s.services[id] = i
+		vhook.Gate("directory.ready.moved", s, id)
 		signal := s.signal
 		if signal != nil {
 			signal.SignalServiceAdded(id, i.Name)
